@@ -187,6 +187,20 @@ impl ValueRef {
         }
     }
 
+    /// Like `create()`, but returns `None` instead of panicking if the string
+    /// pool is full.
+    pub(crate) fn try_create(
+        value: Value,
+        string_pool: &mut StringPool,
+    ) -> Option<ValueRef> {
+        match value {
+            Value::Str(string) if !string.is_empty() => {
+                string_pool.try_incref(string).map(ValueRef::Str)
+            }
+            value => Some(ValueRef::create(value, string_pool)),
+        }
+    }
+
     /// Removes the reference from the string pool (if is a string reference).
     pub fn remove(self, string_pool: &mut StringPool) {
         match self {
